@@ -185,11 +185,61 @@ def check(label, m, rng):
     return fails
 
 
+def check_thin_facets():
+    """surface factors on needle-shaped facets (boundary-layer meshes): detDG * reference measure against the facet measure computed in exact rational arithmetic
+    (the square of the measure is rational; one correctly rounded square root).  Floating-point cancellation in an algebraically equivalent formula shows here."""
+    import skfem as fem
+    from fractions import Fraction
+    from math import sqrt
+    from skfem.mapping import MappingAffine, MappingIsoparametric
+    fails = []
+    for thick in (2. ** -14, 2. ** -20, 2. ** -27):
+        m = fem.MeshTet.init_tensor(np.array([0., thick, 1.]), np.array([0., .5, 1.]), np.array([0., 1.]))
+        maps = [("affine", MappingAffine(m)), ("isoparametric", MappingIsoparametric(m, fem.ElementTetP1(), fem.ElementTriP1()))]
+        X = np.array([[1 / 3], [1 / 3]])
+        find = np.arange(m.facets.shape[1])
+        exact = []
+        for f in find:
+            P = [[Fraction(float(v)) for v in m.p[:, vi]] for vi in m.facets[:, f]]
+            a = [P[1][i] - P[0][i] for i in range(3)]
+            b = [P[2][i] - P[0][i] for i in range(3)]
+            cr = [a[1] * b[2] - a[2] * b[1], a[2] * b[0] - a[0] * b[2], a[0] * b[1] - a[1] * b[0]]
+            exact.append(sqrt(sum(c * c for c in cr)))        # = 2 * area = detDG (reference triangle has measure 1/2)
+        exact = np.array(exact)
+        for name, mp in maps:
+            got = np.asarray(mp.detDG(X, find))[:, 0]
+            rel = np.abs(got - exact) / exact
+            if rel.max() > 1e-9:
+                f = int(np.argmax(rel))
+                fails.append("THIN-FACET: %s detDG of facet %d of a boundary-layer mesh (layer thickness %.1e) is %r, exact %r (relative error %.2e)" % (name, f, thick, float(got[f]), float(exact[f]), rel.max()))
+    mq = fem.MeshHex.init_tensor(np.array([0., 2. ** -20, 1.]), np.array([0., 1.]), np.array([0., 1.]))
+    mp = mq._mapping()
+    got = np.asarray(mp.detDG(np.array([[.5], [.5]]), np.arange(mq.facets.shape[1])))[:, 0]
+    ex = np.array([geom_area(mq, f) for f in range(mq.facets.shape[1])])
+    rel = np.abs(got - ex) / ex
+    if rel.max() > 1e-9:
+        fails.append("THIN-FACET: hexahedral detDG relative error %.2e on a boundary-layer mesh" % rel.max())
+    return fails
+
+
+def geom_area(m, f):
+    from native import geom as G
+    return G.poly_area(G.facet_points(m, f))
+
+
 def run(payload):
     tier, seed = payload.get("tier", "quick"), int(payload.get("seed", 0))
     only = payload.get("only")
     rng = np.random.RandomState(seed)
     cases, failures, samples = 0, [], []
+    if not only or only == "thin-facets":
+        cases += 1
+        try:
+            fl = check_thin_facets()
+        except Exception as ex:
+            fl = ["exception %s: %s" % (type(ex).__name__, ex)]
+        for f in fl[:4]:
+            failures.append(dict(input=dict(mesh="boundary-layer tetrahedra / hexahedra"), observed=f, replay=dict(kind="maps_case", only="thin-facets", seed=seed, tier=tier)))
     for label, m in meshes(tier, seed):
         if only and only != label:
             continue
